@@ -47,11 +47,11 @@ PROPS = {
               "models; gopacket's SerializeBuffer and crypto/{hmac,aes,cipher} are modelled/assumed, not verified"],
  'assumptions': ['crypto/rand replaced by a fixed reader in the harness so that the IV is an input']},
     "C05": {
-        "claim": "For each of the 31 decoding layers of pkg/ipmi and pkg/dcmi a Lean model mirrors DecodeFromBytes statement by statement over an explicit Go-slice semantics (indexing bounded by len, slicing by cap, panics and reads beyond len as outcomes) and a refinement / canonical-form theorem shows: for EVERY receiver state and EVERY slice (any length, any capacity, any bytes beyond its length) the result is a value or an error - never a panic or an over-read - and is a function of the visible bytes only. The AES layer is proved for every lawful block cipher and key, i.e. for every plaintext a key holder can craft. On top: the whole decoding chain of an in-session reply never crashes (decodeChain_total) and an in-session command returns for every reply script of every length (call_total). Models are tied to the code by running every decoder under recover() on exact-capacity slices and on windows into a poisoned buffer with two poisons.",
-        "note": "trusted: Lean kernel; the hand-written decodeGo models (tied by correspondence: outcome incl. every exported field, panic, over-read); Go slice semantics as modelled in Basic/Go.lean; gopacket's LayersDecoder modelled from source; state left behind by a FAILED decode is not modelled; session-less and handshake call totality rest on the same per-layer theorems plus the correspondence runs of C10/C02 (no separate Lean theorem yet)",
+        "claim": "For each of the 31 decoding layers of pkg/ipmi and pkg/dcmi a Lean model mirrors DecodeFromBytes statement by statement over an explicit Go-slice semantics (indexing bounded by len, slicing by cap, panics and reads beyond len as outcomes) and a refinement / canonical-form theorem shows: for EVERY receiver state and EVERY slice (any length, any capacity, any bytes beyond its length) the result is a value or an error - never a panic or an over-read - and is a function of the visible bytes only. The AES layer is proved for every lawful block cipher and key, i.e. for every plaintext a key holder can craft. On top: the whole decoding chain of an in-session reply never crashes (decodeChain_total) and an in-session command returns for every reply script of every length (call_total); likewise the session-less chain and command (slChain_total, sessionless_call_total) and the whole RAKP handshake: for every credential set, suite and EVERY reply script - any bytes substituted or truncated at any of the three exchanges - newSession ends with a session or an error, never a crash (handshake_total). Models are tied to the code by running every decoder under recover() on exact-capacity slices and on windows into a poisoned buffer with two poisons.",
+        "note": "trusted: Lean kernel; the hand-written decodeGo models (tied by correspondence: outcome incl. every exported field, panic, over-read); Go slice semantics as modelled in Basic/Go.lean; gopacket's LayersDecoder modelled from source; state left behind by a FAILED decode is not modelled",
         "technique": "Lean 4 proof (per-layer refinement theorems over Go-slice semantics; induction over reply scripts) + differential correspondence under recover() with poisoned windows",
         "ref": "§5 C05",
-        "proofs": ["Bmc.Proofs.C05.Basic", "Bmc.Proofs.C05.Core", "Bmc.Proofs.C05.Sess", "Bmc.Proofs.C05.Sdr", "Bmc.Proofs.C05.Setup", "Bmc.Proofs.C05.Dcmi"],
+        "proofs": ["Bmc.Proofs.C05.Basic", "Bmc.Proofs.C05.Core", "Bmc.Proofs.C05.Sess", "Bmc.Proofs.C05.Sdr", "Bmc.Proofs.C05.Setup", "Bmc.Proofs.C05.Dcmi", "Bmc.Proofs.C05.Calls"],
         "scenarios": ["dec", "send"],
         "rule": "dec: per layer 150 (thorough 3000) specification-conforming encodings, each decoded fresh / in a poisoned window / after another valid input; every truncation and 1-3 byte extension of 40 of them; single-bit corruptions; random bytes; all ordered pairs of a pool; layer-specific branch steering (crafted AES plaintexts for every pad length x pattern, 7-byte responses, every trailer length). send: exhaustive reply scripts over an 18-letter alphabet (forged, truncated, mis-signed, mis-padded, runt, ...) to depth 3 (thorough: + a quarter of depth 4). Non-trivial = input passing the layer's first length guard / script with a non-final outcome before its end; distinct = distinct op line.",
         "modelled": ["all DecodeFromBytes methods, LayersDecoder chain, in-session retry loop are hand models tied by correspondence; crypto/aes + cipher.CBC assumed lawful (decBlock inverts encBlock, lengths preserved)"],
